@@ -192,3 +192,39 @@ Definition tx_driver (oneofs : list (string * string)) (phys : Z) (maxn maxp max
                            else graphs_stream_frames SN s0 k) in
     (map (pb_canon oneofs) ys, match r with Exn e => Some e | Val _ => None end)
   end end end end end end.
+
+(* ------------------------------------------------------------------ grouped_stream_to_frames(sinks, options) with guess_options / guess_stream
+   and the singledispatch stream_frames: sinks built as above, options given (built from the configuration) or None *)
+Fixpoint tx_sinks (groups : list (list (str * str) * list gobj)) : outcome (list (GenericStatementSink SN)) :=
+  match groups with
+  | [] => Val []
+  | (ns, stmts) :: rest =>
+    match tx_sink ns stmts with
+    | Exn e => Exn e
+    | Val k => match tx_sinks rest with Exn e => Exn e | Val ks => Val (k :: ks) end
+    end
+  end.
+
+Definition tx_grouped_writer (oneofs : list (string * string)) (given : bool) (maxn maxp maxd : Z) (gen star : bool) (version : Z) (delimited nd : bool) (name : str)
+                             (frame_size logical : Z) (groups : list (list (str * str) * list gobj)) : list (pbval str) * option exn :=
+  match tx_sinks groups with
+  | Exn e => ([], Some e)
+  | Val ks =>
+    let opts :=
+      if given then
+        match LookupPreset___init__ maxn maxp maxd with
+        | Exn e => Exn e
+        | Val preset =>
+          match StreamParameters___init__ SN gen star version delimited nd name with
+          | Exn e => Exn e
+          | Val params => match SerializerOptions___init__ SN None frame_size logical params preset with Exn e => Exn e | Val o => Val (Some o) end
+          end
+        end
+      else Val None in
+    match opts with
+    | Exn e => ([], Some e)
+    | Val o =>
+      let '(r, _, ys) := grouped_stream_to_frames SN ks o in
+      (map (pb_canon oneofs) ys, match r with Exn e => Some e | Val _ => None end)
+    end
+  end.
